@@ -31,7 +31,7 @@ OUTSIDE = ['pipelines with more than 4 tasks', 'histories longer than h from a g
 REACH = ['runs=closure', 'inspection-runs-nothing', 'at-most-once']
 
 KINDS = [('json', 'json', 'json', 'json'), ('json', 'mem', 'dir', 'gen'), ('gen0', 'json', 'mem', 'json'),
-         ('mem', 'mem', 'json', 'dir')]
+         ('memlen', 'mem', 'json', 'dir')]
 INSPECT = ['tasks_df', 'has_data', 'data_path', 'run_info', 'log', 'str', 'readable', 'dependent', 'required',
            'repr', 'contains']
 
